@@ -19,7 +19,8 @@ EXPLANATION = (
     "the process-global container counter (container_id) never enter an ordering comparison or a sort/min/max key; every "
     "sort/sorted has a key unless it sorts registry names; a node identifier is a whole uuid4 (never a slice or other shortened form).  (3) randomness and clocks: no `random` module calls, no global numpy "
     "RNG; the only generators are np.random.default_rng(<seed parameter>); wall-clock values (time.*) exist only in the REST "
-    "bridge and flow only into its timing_* statistics and log messages; no os.environ / os.urandom reads.  (4) process-global "
+    "bridge and flow only into its timing_* statistics and log messages; no os.environ / os.urandom reads; what is stored under the key "
+    "'random_seed' is a plain value or start + index, never an expression that can make two seeds equal.  (4) process-global "
     "state mutated at run time is exactly the confirmed table (Container.next_container_num -> identifiers only; the two "
     "scheduler registries, written by decorators at import; log formatters); no function is memoised; an instance created at module or class "
     "level belongs to a class without methods that store to self after construction.  (5) the generator depends only on its own "
